@@ -22,6 +22,7 @@ Label syntax is whatever the group reports; which exception rejects is free.
 """
 import io
 import itertools
+import math
 import re
 
 from ..refmodels import c11_shapes as S
@@ -189,6 +190,9 @@ def labels_for(op, pos, lab):
     return "E%d({},{})" % pos
 
 
+_SHARED = {}        # Graph objects of the current history, by vertex count
+
+
 def build_graph(op):
     import cnfgen.graphs as g
     k = op[0]
@@ -199,9 +203,20 @@ def build_graph(op):
     elif k == "bipc":
         G = g.CompleteBipartiteGraph(op[1], op[2])
     elif k == "graph":
-        G = g.Graph(op[1])
-        for u, v in op[2]:
-            G.add_edge(u, v)
+        want = {tuple(sorted(e)) for e in op[2]}
+        G = _SHARED.get(op[1]) if len(op) > 3 and op[3] == "reuse" else None
+        if G is not None:
+            # the caller's own Graph object, used for an earlier group, edited in place to the edge set of this op
+            for e in [e for e in G.edges() if tuple(sorted(e)) not in want]:
+                G.remove_edge(*e)
+            for u, v in op[2]:
+                G.add_edge(u, v)
+            _SHARED["reused"] = _SHARED.get("reused", 0) + 1
+        else:
+            G = g.Graph(op[1])
+            for u, v in op[2]:
+                G.add_edge(u, v)
+        _SHARED[op[1]] = G
     else:
         G = g.DirectedGraph(op[1])
         for u, v in op[2]:
@@ -702,6 +717,7 @@ def run_history(ctx, cls, ops, lab, r):
     model = Shadow()
     done = []
     ok = True
+    _SHARED.clear()
     for pos, op in enumerate(ops):
         done.append(op)
         where = "%s history %r (label style %d)" % (cls, done, lab)
@@ -719,6 +735,7 @@ def run_history(ctx, cls, ops, lab, r):
         ok = (recheck(ctx, model, where) and check_names(ctx, T, model, where, fmt="y[{}]")
               and check_varname_lines(ctx, T, model, where))
     ctx.count("histories_on:" + cls)
+    ctx.count("groups_on_a_reused_graph_object", _SHARED.get("reused", 0))
     nontrivial = any(rc.size for rc in model.recs)
     ctx.judged((cls, lab, repr(ops)), nontrivial=nontrivial,
                sample={"class": cls, "label_style": lab, "history": ops, "variables": model.numvar,
@@ -788,6 +805,18 @@ def case_sampled(ctx, cls, rseed, count, minlen, maxlen):
     r = ctx.rng("c11-sampled", cls, rseed)
     for _ in range(count):
         ops = [random_op(r) for _ in range(r.randint(minlen, maxlen))]
+        for i, op in enumerate(list(ops)):
+            if op[0] == "graph" and op[1] >= 3 and op[2] and r.random() < 0.6:
+                # the same Graph object again later, edited in between: an edge moved (counts unchanged), removed, or added
+                n, E = op[1], [tuple(sorted(e)) for e in op[2]]
+                free = [e for e in itertools.combinations(range(1, n + 1), 2) if e not in E]
+                how = r.choice(["move", "move", "remove", "add"])
+                E2 = list(E)
+                if how in ("move", "remove"):
+                    E2.remove(r.choice(E2))
+                if how in ("move", "add") and free:
+                    E2.append(r.choice(free))
+                ops.insert(r.randint(i + 1, len(ops)), ["graph", n, [list(e) for e in E2], "reuse"])
         run_history(ctx, cls, ops, r.choice([0, 0, 1, 2]), r)
 
 
@@ -802,6 +831,78 @@ def case_large(ctx, cls, rseed):
            ["bmap", r.randint(3, 6), r.randint(17, 40)], ["comb", 7, 3], ["map", 6, 7], ["anon", 3, "upd"], ["var"]]
     r.shuffle(ops)
     run_history(ctx, cls, ops, 0, r)
+
+
+def case_huge(ctx, cls, rseed):
+    """Groups far too large to enumerate (the library keeps them as ranges): blocks and binary mappings with 2^40..2^62
+    variables.  Identifiers are computed, so they are compared with the closed form at sampled indices, including
+    identifiers above 2^53 where floating point stops being exact."""
+    r = ctx.rng("c11-huge", cls, rseed)
+    T = Target(cls)
+    V = T.V
+    pre = r.choice([0, 1, 3, 1000])
+    for _ in range(pre):
+        V.new_variable()
+    first = pre + 1
+    shapes = [("bmap", 2 ** 53, 4), ("bmap", 2 ** 53 + 11, 3), ("bmap", 2 ** 58, 17), ("bmap", 2 ** 40, 2 ** 20 + 1),
+              ("block", 2 ** 30, 2 ** 31), ("block", 2 ** 20, 2 ** 20, 2 ** 21), ("block", 3, 2 ** 60), ("block", 2 ** 55, 5)]
+    r.shuffle(shapes)
+    for shape in shapes[:4]:
+        kind, dims = shape[0], shape[1:]
+        where = "%s: %s%r after %d variables" % (cls, {"bmap": "new_binary_mapping", "block": "new_block"}[kind], dims, first - 1)
+        st, g = ctx.call(V.new_binary_mapping if kind == "bmap" else V.new_block, *dims)
+        if st == "exc":
+            ctx.violation("huge:create:raises:%s" % type(g).__name__, "%s raised %r" % (where, g))
+            return
+        if kind == "bmap":
+            nb = (dims[1] - 1).bit_length()
+            size = dims[0] * nb
+            ident = lambda idx: first + (idx[0] - 1) * nb + (nb - 1 - idx[1])
+            rand_index = lambda: (r.choice([1, dims[0], r.randint(1, dims[0]), dims[0] - r.randint(0, 5), 2 ** 52 + r.randint(-3, 3)]),
+                                  r.randint(0, nb - 1))
+            legal = lambda idx: 1 <= idx[0] <= dims[0]
+        else:
+            size = math.prod(dims)
+            def ident(idx):
+                k = 0
+                for d, x in zip(dims, idx):
+                    k = k * d + (x - 1)
+                return first + k
+            rand_index = lambda: tuple(r.choice([1, d, r.randint(1, d), max(1, d - r.randint(0, 3))]) for d in dims)
+            legal = lambda idx: True
+        st, nv = ctx.call(T.F.number_of_variables)
+        if nv != first - 1 + size:
+            ctx.violation("huge:variable-count", "%s: %r variables, expected %d" % (where, nv, first - 1 + size))
+            return
+        ctx.count("huge_groups")
+        for _ in range(60):
+            idx = rand_index()
+            if not legal(idx):
+                continue
+            want = ident(idx)
+            st, got = ctx.call(g, *idx)
+            ctx.count("huge_index_probes")
+            if st == "exc" or got != want:
+                ctx.violation("huge:identifier", "%s: index %r -> %r, expected %d" % (where, idx, got, want))
+                return
+            for lit in (want, -want):
+                st, back = ctx.call(g.to_index, lit)
+                if st == "exc" or tuple(back) != tuple(idx):
+                    ctx.violation("huge:index-of-identifier", "%s: to_index(%d) -> %r, expected %r" % (where, lit, back, idx))
+                    return
+        # identifiers picked directly, in particular just above 2^53
+        for k in [first, first + size - 1, first + size // 2] + [first + min(size - 1, 2 ** 53 + d) for d in (-1, 0, 1, 2, 3, 5)] + \
+                [first + r.randrange(size) for _ in range(30)]:
+            st, idx = ctx.call(g.to_index, k)
+            ctx.count("huge_identifier_probes")
+            if st == "exc":
+                ctx.violation("huge:index-of-identifier", "%s: to_index(%d) raised %r" % (where, k, idx))
+                return
+            if ident(tuple(idx)) != k:
+                ctx.violation("huge:index-of-identifier", "%s: to_index(%d) -> %r, which is identifier %d" % (where, k, idx, ident(tuple(idx))))
+                return
+        ctx.judged(("huge", cls, shape, first), nontrivial=True, sample={"class": cls, "group": [kind] + [str(d) for d in dims], "first": first})
+        first += size
 
 
 CLI_FAMILIES = [
@@ -901,5 +1002,8 @@ def workload(tier, seed):
                               "minlen": 1 if short else 3, "maxlen": 3 if short else 8}
         for b in range(4 if tier == "quick" else 60):
             yield "large", {"cls": cls, "rseed": seed * 1000 + b}
+    for cls in ("CNF", "OPB", "VM"):
+        for b in range(3 if tier == "quick" else 40):
+            yield "huge", {"cls": cls, "rseed": seed * 1000 + b}
     for argv in CLI_FAMILIES:
         yield "cli", {"argv": argv}
